@@ -192,12 +192,12 @@ def check_loop(ctx, cls, dw):
             res_ok = True
         ctx.check('R1', f'{F}: _send_result() is given the value returned by run()', res_ok, F, f'send-result-arg:{norm(sc)}',
                   f'`{norm(sc)}` does not send the value returned by run()', where=loc(dw, sc))
-        run_post = {n.id for n in g.nodes if n.stmt is not None and n.part == 'post' and any(x is rc for x in calls_in(n.stmt))}
-        send_post = {n.id for n in g.nodes if n.stmt is not None and n.part == 'post' and any(x is sc for x in calls_in(n.stmt))}
+        run_post = {n.id for n in g.nodes if n.stmt is not None and n.part == 'post' and any(x is rc for x in n.calls())}
+        send_post = {n.id for n in g.nodes if n.stmt is not None and n.part == 'post' and any(x is sc for x in n.calls())}
         heads = [n for n in g.nodes if n.kind == 'join' and n.stmt is lp]
         # start: after the unpack of the received value (non-stop path)
         unpack_nodes = [n for n in g.nodes if n.stmt is not None and n.part in (None, 'store') and isinstance(n.stmt, ast.Assign) and is_name(n.stmt.value, rv)]
-        starts = unpack_nodes or [n for n in g.nodes if n.stmt is not None and n.part == 'post' and any(x is recvs[0] for x in calls_in(n.stmt))]
+        starts = unpack_nodes or [n for n in g.nodes if n.stmt is not None and n.part == 'post' and any(x is recvs[0] for x in n.calls())]
         back = lambda n: n in heads
         p1 = g.find_path(starts, back, edge_ok=is_flow, node_ok=lambda n: n.id not in run_post)
         p2 = g.find_path(starts, back, edge_ok=is_flow, node_ok=lambda n: n.id not in send_post)
@@ -284,7 +284,7 @@ def check_send_result(ctx, cls):
     ctx.check('R3', f'{cls.name}: _init_child resets the counter to 0', reset, ic.short if ic else cls.name, f'counter-not-reset:{counter}',
               'the child never resets its result counter: a restarted worker does not count from zero', where=loc(ic, ic.node) if ic else None)
     g = lc.g
-    ic_post = {n.id for n in g.nodes if n.stmt is not None and n.part == 'post' and any(last_attr(x) == '_init_child' for x in calls_in(n.stmt))}
+    ic_post = {n.id for n in g.nodes if n.stmt is not None and n.part == 'post' and any(last_attr(x) == '_init_child' for x in n.calls())}
     dom = g.dominators(edge_ok=is_flow)
     ok = bool(lc.work_nodes) and all(dom.get(w.id, set()) & ic_post for w in lc.work_nodes)
     ctx.check('R3', f'{cls.name}: _init_child() precedes do_work() in {lc.main.short}', ok, lc.main.short, 'init-child-not-before-work',
@@ -314,7 +314,7 @@ def check_guards(ctx, cls):
     if ok:
         writes = [n for n in g.nodes if n.stmt is not None and n.part == 'eval' and any(
             (last_attr(c) in ('put', 'send') and (receiver(c) or '').startswith('self._args_pipe')) or
-            (last_attr(c) == 'send_msg' and c.args and norm(c.args[0]) == 'self._socket') for c in calls_in(n.stmt))]
+            (last_attr(c) == 'send_msg' and c.args and norm(c.args[0]) == 'self._socket') for c in n.calls())]
         gnodes = {n.id for n in g.nodes if n.kind == 'test' and n.stmt is guard}
         dom = g.dominators(edge_ok=is_flow)
         okd = bool(writes) and all(dom.get(w.id, set()) & gnodes for w in writes)
@@ -327,7 +327,7 @@ def check_guards(ctx, cls):
             and any(is_self_attr(t, '_closed') for t in n.stmt.targets) and isinstance(n.stmt.value, ast.Constant) and n.stmt.value.value is True}
     tokens = [n for n in gr.nodes if n.stmt is not None and n.part == 'post' and any(
         (last_attr(c) in ('put', 'send') and c.args and isinstance(c.args[0], ast.Constant) and c.args[0].value is None) or
-        (last_attr(c) == 'send_msg' and len(c.args) >= 2 and isinstance(c.args[1], ast.Constant) and c.args[1].value is None) for c in calls_in(n.stmt))]
+        (last_attr(c) == 'send_msg' and len(c.args) >= 2 and isinstance(c.args[1], ast.Constant) and c.args[1].value is None) for c in n.calls())]
     tok_eval = [n for n in gr.nodes if n.stmt is not None and n.part == 'eval' and any(t.stmt is n.stmt for t in tokens)]
     ctx.check('R4', f'{R}: writes the stop token', bool(tokens), R, 'no-stop-token', '_release_child never writes the stop token', where=loc(rel, rel.node))
     if tokens:
